@@ -207,7 +207,7 @@ def run(ctx: Any) -> None:
 
     for sv in [None] + servers:
         srv = make(sv)
-        app = make_wsgi_app(srv, prefix="", enable_landing_page=False, enable_not_found_page=False, enable_describe_page=False)
+        app = make_wsgi_app(srv, prefix="", token_key=b"k" * 32, enable_landing_page=False, enable_not_found_page=False, enable_describe_page=False)
         client = falcon.testing.TestClient(app)
         parts = None if sv is None else tuple(int(x) for x in sv.split("."))
         vals = values if sv is not None else values[:: max(1, len(values) // 25)]
